@@ -234,6 +234,11 @@ impl<'a> Ingestion<'a> {
 
         if self.last_key.is_none() {
             log::trace!("No data written to Ingestion, returning early");
+
+            // NOTE: The writer has already created its first (still empty) table file,
+            // finishing it removes that file again instead of leaving it behind
+            self.writer.finish()?;
+
             return Ok(());
         }
 
